@@ -1,5 +1,6 @@
 # Copyright 2024, Battelle Energy Alliance, LLC All Rights Reserved.
 from montepy.data_inputs.data_input import DataInputAbstract
+from montepy.errors import MalformedInputError
 from montepy.input_parser import syntax_node
 from montepy.particle import Particle
 
@@ -15,6 +16,15 @@ class Mode(DataInputAbstract):
     def __init__(self, input=None):
         super().__init__(input)
         if input:
+            # MODE holds particle designators only: the grammar's leading keyword slot
+            # and key=value parameters are not part of it
+            keyword = self._tree["keyword"] if "keyword" in self._tree else None
+            if (keyword is not None and keyword.value) or (
+                "parameters" in self._tree and len(self._tree["parameters"].nodes) > 0
+            ):
+                raise MalformedInputError(
+                    input, "A MODE input holds particle designators only"
+                )
             self._particles = set()
             self._parse_and_override_particle_modes(
                 [p.value for p in self._tree["data"]]
